@@ -27,7 +27,7 @@ MANIFEST_ENTRY = {
             "the recorded finding); (declarations) the variable declarations of a function block -- one block per variable with its class "
             "and qualifier, elementary or named type, constant or enumerated initial value, edge inputs -- are read back exactly "
             "(C10_declarations_parse_render; a negative initial value is refuted); (libraries) TYPE declarations -- arrays, integer subranges, enumerations, elementary types with a default, late-bound names, each written in a TYPE block of its own -- function blocks and programs are read back as the same flat library and rendering again gives the same tokens (C10_library_parse_render, C10_library_fixed_point; a negative bound is refuted). The renderer model is compared token for token with write_to_string. "
-            "(times of day) the seconds text the renderer writes for TIME_OF_DAY# / DATE_AND_TIME# -- two digits, '.', the microseconds as six digits without trailing zeros, at least two -- is read back by the literal model as exactly that time, for every hour, minute, second and microsecond (C10_time_of_day_round_trip; the digits-level fact by a complete sweep of the 10^6 fractions inside Coq); the model's text is compared with write_to_string. "
+            "(times of day) the seconds text the renderer writes for TIME_OF_DAY# / DATE_AND_TIME# -- two digits, '.', the microseconds as six digits without trailing zeros, at least two -- is read back by the literal model as exactly that time, for every hour, minute, second and microsecond (C10_time_of_day_round_trip; the digits-level fact by a complete sweep of the 10^6 fractions inside Coq); (dates) every date the literal model accepts is read back from DATE#yyyy-mm-dd as that date (C10_date_round_trip); (durations) whatever decimal spelling of n < 2^64 stands in TIME#<n>ms, it is read back as exactly n milliseconds (C10_milliseconds_read_back); the models' texts are compared with write_to_string and the model's reading of the renderer's digits with the value the parser gave the original literal. "
             "For declarations and the remaining statement forms the round trip is decided by search: every generated unit and every fixture is parsed, rendered, re-parsed and compared with Rust's ==; the second "
             "rendering must equal the first. The renderer has several recorded defects (known findings) whose classes are excluded by "
             "predicates on the unit and on the way the round trip fails.",
@@ -328,6 +328,53 @@ def time_literals(run, info, wd, stats):
                 run.cov["disagreements_checked"] += 1
                 run.violation("correspondence", "date renderer model and write_to_string differ: model %r (read back %r), renderer %r" % (mtext, mo[1:], mm.group(1)),
                               {"input": {"text": src}, "obligation": "C10_date_round_trip"}, no_input=True)
+    # durations: TIME#<n>ms (C10_milliseconds_read_back).  The model reads the renderer's digits back; that must be the value the
+    # parser gave the ORIGINAL literal (whole milliseconds here; finer ones are the recorded finding, exercised by its witness)
+    durs = ["T#0ms", "T#1ms", "T#999ms", "T#1000ms", "T#1500ms", "T#2s", "T#1.5s", "T#0.001s", "T#1m", "T#1.5m", "T#1h", "T#0.5h", "T#1d", "T#2.5d",
+            "TIME#86400001ms", "T#4294967296ms", "t#12.345s", "T#9223372036854775s", "T#100000d", "T#0.25s", "T#59.999s"]
+    for _ in range(30 if run.tier == "quick" else 1500):
+        u = rng.choice(["ms", "s", "m", "h", "d"])
+        if u == "ms":
+            durs.append("T#%dms" % rng.choice([rng.randrange(10), rng.randrange(100000), rng.randrange(10 ** 12)]))
+        else:
+            durs.append("T#%d%s%s" % (rng.randrange(1000), rng.choice(["", ".5", ".25", ".125", ".001"]) if u != "d" or True else "", u))
+    dsrc = ["PROGRAM p\nVAR\n  t : TIME := %s;\nEND_VAR\nEND_PROGRAM\n" % l for l in durs]
+    res = vlib.run_impl([{"id": i, "op": "roundtrip", "text": hexs(t)} for i, t in enumerate(dsrc)], wd, per_case_timeout=30)
+    val = vlib.run_impl([{"id": i, "op": "parse", "text": hexs(t), "collect": True} for i, t in enumerate(dsrc)], wd, per_case_timeout=30)
+    outs = []
+    for r in res:
+        out = bytes.fromhex(r["render1"]).decode("utf-8", "replace") if isinstance(r.get("render1"), str) and r.get("render1") != "err" else ""
+        mm = re.search(r"TIME#(\d+)ms", out)
+        outs.append((out, mm.group(1) if mm else None))
+    model = vlib.run_model([("lit", i, ["mstext", hexs(o[1])]) for i, o in enumerate(outs) if o[1] is not None], wd) if info.get("extract_ok") else {}
+    for i, (lit, src, r, v, (out, digits)) in enumerate(zip(durs, dsrc, res, val, outs)):
+        run.count(("duration", src), True, "duration")
+        if "panic" in r or "abort" in r or r.get("parse1") != "ok" or digits is None:
+            run.violation("impl-violates-property", "a duration literal is not accepted / rendered as TIME#<n>ms: %r" % (r.get("panic") or r.get("abort") or r.get("diags") or out[:80],),
+                          {"input": {"text": src}})
+            continue
+        consts = ((v.get("collect") or {}).get("consts") or [])
+        dv = next((c for c in consts if c.get("kind") == "duration"), None)
+        whole_ms = dv is not None and int(dv["nanos"]) % 1000000 == 0
+        ok = r.get("parse2") == "ok" and r.get("equal") and r.get("fixed_point")
+        if not ok and whole_ms:
+            run.violation("impl-violates-property", "a duration of whole milliseconds does not survive render and re-parse (%s rendered TIME#%sms)" % (lit, digits),
+                          {"input": {"text": src}, "rendered": out})
+            continue
+        if not ok:
+            if "render-fractional-time-values" in known_keys and r.get("parse2") == "ok":
+                run.known_finding("render-fractional-time-values", next(f["class"] + ": " + f["failure_mode"] for f in run.known if f["key"] == "render-fractional-time-values"))
+            else:
+                run.violation("impl-violates-property", "a duration finer than a millisecond: the rendered text is rejected", {"input": {"text": src}, "rendered": out})
+            continue
+        mo = model.get(str(i))
+        if mo and dv is not None:
+            n += 1
+            run.cov["traces_validated_against_impl"] += 1
+            if mo != [str(dv["seconds"]), str(dv["nanos"])]:
+                run.cov["disagreements_checked"] += 1
+                run.violation("correspondence", "the model reads TIME#%sms back as %r, the parser gave the original %s the value %r" % (digits, mo, lit, (dv["seconds"], dv["nanos"])),
+                              {"input": {"text": src}, "obligation": "C10_milliseconds_read_back"}, no_input=True)
     return n
 
 
